@@ -89,10 +89,11 @@ def bar(name, le, lt, var):
             "none-for-invalid-index": f"implies(not {VALID}, result is None)",
             "non-negative-offset": f"implies({VALID}, result is not None and result >= 0)",
             "zero-when-nothing-in-window": f"implies({VALID} and forall(0, n, lambda k: {P('k')} is None), result == 0)",
+            "offset-inside-window": f"implies({VALID}, result < Max(n, 1))",
+            "nothing-present-unless-pointed-at": f"implies({VALID} and {P('result')} is None, forall(0, n, lambda k: {P('k')} is None))",
             "offset-of-most-recent-extreme": (
-                f"implies({VALID} and exists(0, n, lambda k: {P('k')} is not None),"
-                f" result < n and {P('result')} is not None"
-                f" and forall(0, n, lambda k: implies({P('k')} is not None, {PN('k')} {le} {PN('result')}))"
+                f"implies({VALID} and n >= 1 and {P('result')} is not None,"
+                f" forall(0, n, lambda k: implies({P('k')} is not None, {PN('k')} {le} {PN('result')}))"
                 f" and forall(0, result, lambda k: implies({P('k')} is not None, {PN('k')} {lt} {PN('result')})))"),
         },
         result_type="int|None",
